@@ -1437,12 +1437,13 @@ func compileTableExpr(context *funcContext, reg int, ex *ast.TableExpr, ec *expc
 			if field.Key != nil {
 				line = field.Key
 			}
+			batch := c
 			if c > 511 {
 				c = 0
 			}
 			code.AddABC(OP_SETLIST, tablereg, b, c, sline(line))
 			if c == 0 {
-				code.Add(uint32(c), sline(line))
+				code.Add(uint32(batch), sline(line))
 			}
 		}
 	}
